@@ -4,6 +4,7 @@
 checks / caught_by / caught_by_target. Prints the matrix. /repo itself is never touched."""
 import sys, os, subprocess, shutil, tempfile, json, concurrent.futures as cf
 ENV = dict(os.environ, GOFLAGS="-mod=mod", GOPROXY="off", GOSUMDB="off", GOTOOLCHAIN="local"); ENV.pop("GOWORK", None)
+BIN = os.environ.get("SPDXVERIF_BIN", "/verif/bin/spdxverif")
 PROPS = ["C%02d" % i for i in range(1, 16)]
 seeds = sys.argv[1:] or sorted(os.listdir("/verif/seeded"))
 def sh(cmd, cwd=None):
@@ -20,7 +21,7 @@ def one(sid):
         def chk(p):
             ev = tempfile.mkdtemp(prefix="spdxseedev.")
             shutil.copy("/verif/known_findings.json", ev)
-            rc, out = sh(f"/verif/bin/spdxverif check -property {p} -repo {d}/repo -verif {ev}")
+            rc, out = sh(f"{BIN} check -property {p} -repo {d}/repo -verif {ev}")
             shutil.rmtree(ev)
             first = [l.strip() for l in out.split("\n") if l.strip().startswith(("violated", "undecided"))]
             return p, rc, first[:3]
